@@ -126,6 +126,20 @@ impl Pty {
         self.read_n(usize::MAX, wait)
     }
 
+    /// line settings of the pair as (iflag, cflag, output speed): what the library configured on
+    /// the slave is visible through the master
+    pub fn termios(&self) -> Option<(u32, u32, u32)> {
+        use std::os::fd::AsRawFd;
+        let m = self.master.as_ref()?;
+        unsafe {
+            let mut t: libc::termios = std::mem::zeroed();
+            if libc::tcgetattr(m.as_raw_fd(), &mut t) != 0 {
+                return None;
+            }
+            Some((t.c_iflag as u32, t.c_cflag as u32, libc::cfgetospeed(&t) as u32))
+        }
+    }
+
     /// hang up: the slave side sees EOF / EIO
     pub fn close_master(&mut self) {
         self.closed.store(true, std::sync::atomic::Ordering::SeqCst);
